@@ -544,6 +544,20 @@ func runC14x(c c14Case) *vstat.Failure {
 			default:
 			}
 			if refused == "" && maybeRefused && err != nil {
+				// permitted only if such a metric really is still registered
+				conflict := false
+				_ = e.store.Range(func(m *metrics.Metric) error {
+					for _, d := range sp.Decls {
+						want := map[string]metrics.Kind{"counter": metrics.Counter, "gauge": metrics.Gauge}[d.Kind]
+						if m.Name == d.Name && m.Kind != want {
+							conflict = true
+						}
+					}
+					return nil
+				})
+				if !conflict {
+					return vstat.Failf("load-refused-without-kind-conflict", "step %d: %s compiles and no registered metric has one of its names with another kind, yet the load was refused: %v\n%s", si, p.name, err, src)
+				}
 				refused = "kind differs from a metric left behind by a dropped declaration or an unloaded program"
 			}
 			switch {
